@@ -31,6 +31,7 @@ func c13(c *eng.Ctx, r *eng.Report) {
 		"R13.6 a dealer deals one polynomial per group: the seed, the coefficients, the shares and the published dealer key are computed from the miner's long-term secret and the group hash with no randomness, clock or environment source in their cone, so a dealer whose context is rebuilt (restart, re-delivered init) hands the remaining members pieces of the same polynomial the others already hold. " +
 		"R13.7 recovery keeps nothing between calls and runs sequentially: no cache, package-variable store, shared object or goroutine in the cone of recoverSignature/RecoverGroupSignature (a memo keyed by the signer *set* and holding per-*position* coefficients is right for the first arrival order only). " +
 		"R13.8 a member signs with the key the DKG gave it, also after a restart: the record written for the signing key is exactly SignSecKey.Serialize() (a variable-length big-endian integer) and what is read back is handed to Deserialize whole — no re-slicing at a fixed width, nothing appended to the same record; " +
+		"R13.13 (= R14.4) a member's share over a message depends on key and message only: Sign, VerifySig, hash-to-curve and the codecs read no process-local cache — a hashed point remembered under a cropped key makes the share for message B a share over H(A) whenever A and B share their last 32 bytes (two 64-byte beacon messages), and the recovered signature is then invalid for B; " +
 		"R13.12 a sign key or id handed over as hex is the key that was written: BnInt.getHexString writes (*big.Int).Text(16), which drops leading zeros, and BnInt.setHexString reads the digits back with (*big.Int).SetString(_, 16) on the same field — a byte-wise hex decoder mis-reads the one key in sixteen that has an odd number of digits (value >> 4), and that member's shares then fail under its public share; " +
 		"R13.11 the recovered group signature is brought to its final representation before it is published: in genGroupSign every store to GroupSignGenerator.groupSign is followed, before the function returns and so under the caller's write lock, by a Serialize of that field — serialising a point makes it affine in place, and the readers (SignRecovered under the read lock, GetGroupSign().Serialize() under none) share the point through the Signature's pointer, so an un-normalised point is rewritten by several readers at once and one of them hands out garbage; " +
 		"R13.9 a share piece reaches only the member it was evaluated for: the two senders of share pieces (the initial deal and the answer to a re-request) use the unicast SendToStranger with the receiver's id — a ResponseSharePiece carries no receiver field, so a group-wide spread lets another member that still misses this dealer's piece adopt f(requester). " +
@@ -49,6 +50,15 @@ func c13(c *eng.Ctx, r *eng.Report) {
 	c13PieceRouting(c, r)
 	c13PublishNormalised(c, r)
 	hexCodecAgreeAs(c, r, "R13.12")
+	// R13.13: a share is a function of (key, message): Sign, VerifySig and hash-to-curve consult no process-local
+	// memo (C14's R14.4 re-run under this property's id)
+	sub := eng.NewReport(r.Prop, r.Tier)
+	c14Purity(c, sub)
+	for _, o := range sub.Obls {
+		o.Rule = "R13.13"
+		r.Obls = append(r.Obls, o)
+	}
+	r.Min("R13.13", 1)
 	// R13.10: every member signs the same point H(m): the fixed-width encodings on the way from message to curve
 	// point (HashToPoint, the id and scalar encoders) are right-aligned in a buffer of their own (C14's R14.5 here)
 	c14LeftPadAs(c, r, "R13.10")
